@@ -597,6 +597,129 @@ theorem length_path {v : Variant} {ok : Bool} {s t : St} (p : IntPath v ok s t) 
     | reply b => simp only [step] at hs; rw [(replyStep_frame hs).1]
     | _ => simp [Lbl.internal] at hl
 
+/-! ### what is served is the latest installed fetch -/
+
+/-- `currentSVID` is the newest successful fetch, except while the Run goroutine carries a newer one
+towards the write lock. -/
+structure GoodInv (s : St) : Prop where
+  carry : match s.run.carrying with
+    | some w => ∃ rest, s.good = w :: rest ∧ s.svid = rest.head?
+    | none => s.svid = s.good.head?
+  results : ∀ c ∈ s.cons, ∀ w, (c = .gUnlock (some w) ∨ c = .gDone (some w)) → w ∈ s.good
+
+theorem goodInv_init : GoodInv init := by
+  constructor <;> simp [Kit.Spiffe.init, RunPc.carrying]
+
+theorem svid_mem_good {s : St} (h : GoodInv s) {w : Nat} (hw : s.svid = some w) : w ∈ s.good := by
+  have hc := h.carry
+  cases hcar : s.run.carrying with
+  | none =>
+    rw [hcar] at hc; simp only at hc
+    rw [hc] at hw
+    exact List.mem_of_mem_head? hw
+  | some u =>
+    rw [hcar] at hc; simp only at hc
+    obtain ⟨rest, hg, hs⟩ := hc
+    rw [hs] at hw
+    rw [hg]
+    exact List.mem_cons_of_mem _ (List.mem_of_mem_head? hw)
+
+theorem goodInv_step {v : Variant} {s t : St} {l : Lbl} (h : GoodInv s) (hs : step v s l = some t) :
+    GoodInv t := by
+  have hcarry := h.carry
+  have hres := h.results
+  cases l with
+  | callRun =>
+    simp only [step] at hs; split at hs <;> simp at hs
+    subst hs
+    rename_i hidle
+    constructor
+    · simp only [RunPc.carrying]; rw [hidle] at hcarry; simpa [RunPc.carrying] using hcarry
+    · exact hres
+  | callReady =>
+    simp only [step, Option.some.injEq] at hs; subst hs
+    refine ⟨hcarry, ?_⟩
+    intro c hc w hcw
+    simp only [List.mem_append, List.mem_singleton] at hc
+    rcases hc with hc | hc
+    · exact hres c hc w hcw
+    · subst hc; simp at hcw
+  | callGet =>
+    simp only [step, Option.some.injEq] at hs; subst hs
+    refine ⟨hcarry, ?_⟩
+    intro c hc w hcw
+    simp only [List.mem_append, List.mem_singleton] at hc
+    rcases hc with hc | hc
+    · exact hres c hc w hcw
+    · subst hc; simp at hcw
+  | runLoser =>
+    simp only [step] at hs; split at hs <;> simp at hs
+    subst hs; exact h
+  | ctxDone i =>
+    simp only [step] at hs; split at hs <;> simp at hs
+    subst hs
+    refine ⟨hcarry, ?_⟩
+    intro c hc w hcw
+    rcases mem_set_cases hc with hc | hc
+    · subst hc; simp at hcw
+    · exact hres c hc w hcw
+  | stop =>
+    simp only [step] at hs; split at hs <;> simp at hs
+    subst hs
+    rename_i hr
+    constructor
+    · simp only [RunPc.carrying]; rw [hr] at hcarry; simpa [RunPc.carrying] using hcarry
+    · exact hres
+  | renew =>
+    simp only [step] at hs; split at hs <;> simp at hs
+    subst hs
+    rename_i hr
+    constructor
+    · simp only [RunPc.carrying]; rw [hr] at hcarry; simpa [RunPc.carrying] using hcarry
+    · exact hres
+  | reply ok =>
+    simp only [step] at hs
+    cases hr : s.run <;> simp [replyStep, hr] at hs
+    all_goals (rw [hr] at hcarry; simp only [RunPc.carrying] at hcarry)
+    all_goals (cases ok <;> simp at hs <;> subst hs <;> constructor)
+    all_goals first
+      | exact hres
+      | (intro c hc w hcw; exact List.mem_cons_of_mem _ (hres c hc w hcw))
+      | simp_all [RunPc.carrying]
+  | run =>
+    simp only [step] at hs
+    cases hr : s.run <;> simp [runStep, hr] at hs
+    all_goals (rw [hr] at hcarry; simp only [RunPc.carrying] at hcarry)
+    all_goals (try split at hs)
+    all_goals first
+      | (obtain ⟨_, rfl⟩ := hs; constructor)
+      | (subst hs; constructor)
+    all_goals first
+      | exact hres
+      | (obtain ⟨rest, hg, _⟩ := hcarry; simp [RunPc.carrying, hg]; done)
+      | simp_all [RunPc.carrying]
+  | cons i =>
+    simp only [step, consStep] at hs
+    split at hs
+    · simp at hs
+    · rename_i pc hi
+      have key : ∀ b, (∀ w, (b = ConsPc.gUnlock (some w) ∨ b = ConsPc.gDone (some w)) → w ∈ s.good) →
+          ∀ c ∈ s.cons.set i b, ∀ w, (c = .gUnlock (some w) ∨ c = .gDone (some w)) → w ∈ s.good := by
+        intro b hb c hc w hcw
+        rcases mem_set_cases hc with hc | hc
+        · subst hc; exact hb w hcw
+        · exact hres c hc w hcw
+      have hpcm : pc ∈ s.cons := List.mem_of_getElem? hi
+      split at hs <;> (try split at hs) <;> (try split at hs) <;> simp at hs <;> subst hs <;>
+        refine ⟨hcarry, key _ ?_⟩ <;> intro w hw <;> simp at hw
+      · exact svid_mem_good h hw
+      · rename_i r; subst hw; exact hres _ hpcm w (Or.inl rfl)
+
+theorem goodInv_reach {v : Variant} {s t : St} (hg : GoodInv s) (h : Reach v s t) : GoodInv t := by
+  induction h with
+  | refl => exact hg
+  | tail l _ hs ih => exact goodInv_step ih hs
+
 /-! ### the deadlock of the code before the repair -/
 
 /-- `GetX509SVID` took the read lock and waits for `readyCh`; `Run` won the CAS, announced itself as
